@@ -33,6 +33,7 @@ type replayResult struct {
 	Killed   bool        `json:"killed"`
 	Reached  []string    `json:"reached"`
 	Observed [][2]string `json:"observed"`
+	TimedOut bool        `json:"timed_out"`
 }
 
 type replayCaseOut struct {
@@ -145,7 +146,7 @@ type failureGroup struct {
 
 func signature(hname string, f Failure) string {
 	label := f.Label
-	if f.Kind == "panic" || f.Kind == "frame" {
+	if f.Kind == "panic" || f.Kind == "frame" || f.Kind == "nonterm" {
 		// site = file:line:function -> keep file and function (line numbers move)
 		parts := strings.SplitN(label, ":", 3)
 		if len(parts) == 3 {
@@ -207,7 +208,12 @@ func report(r *Runner, prop, tier, evidence, known string, noReplay bool, loadT,
 			validateIDs[id] = rc
 		}
 	}
-	for _, sig := range gorder {
+	// counterexamples that do not return are replayed last: the watchdog ends the replay process
+	replayOrder := append([]string{}, gorder...)
+	sort.SliceStable(replayOrder, func(i, j int) bool {
+		return groups[replayOrder[i]].f.Kind != "nonterm" && groups[replayOrder[j]].f.Kind == "nonterm"
+	})
+	for _, sig := range replayOrder {
 		g := groups[sig]
 		id++
 		rc := ReplayCase{Harness: g.hname, Pkg: g.pkg, Vars: g.f.Vars, Choices: g.f.Choices, Outcome: g.f.Kind + ":" + g.f.Label}
@@ -267,8 +273,12 @@ func report(r *Runner, prop, tier, evidence, known string, noReplay bool, loadT,
 		}
 	}
 	violations := 0
-	os.MkdirAll("/verif/evidence/replay", 0o755)
-	if old, _ := filepath.Glob(fmt.Sprintf("/verif/evidence/replay/%s_*.json", prop)); len(old) > 0 {
+	replayDir := "/verif/evidence/replay"
+	if d := os.Getenv("GOSYM_REPLAYDIR"); d != "" {
+		replayDir = d
+	}
+	os.MkdirAll(replayDir, 0o755)
+	if old, _ := filepath.Glob(fmt.Sprintf("%s/%s_*.json", replayDir, prop)); len(old) > 0 {
 		for _, f := range old {
 			os.Remove(f)
 		}
@@ -300,6 +310,11 @@ func report(r *Runner, prop, tier, evidence, known string, noReplay bool, loadT,
 					confirmed = "reproduced"
 					detail = firstLine(res.PanicMsg)
 				}
+			case g.f.Kind == "nonterm":
+				if res.TimedOut {
+					confirmed = "reproduced"
+					detail = "native run did not return within the replay watchdog"
+				}
 			case g.f.Kind == "frame":
 				// a store into a pre-existing object has no native trap; the harness's own
 				// snapshot assertion (if it failed natively) confirms it, otherwise the
@@ -322,7 +337,7 @@ func report(r *Runner, prop, tier, evidence, known string, noReplay bool, loadT,
 			continue
 		}
 		violations++
-		rp := fmt.Sprintf("/verif/evidence/replay/%s_%d.json", prop, violations)
+		rp := fmt.Sprintf("%s/%s_%d.json", replayDir, prop, violations)
 		rc := ReplayCase{Harness: g.hname, Pkg: g.pkg, Vars: g.f.Vars, Choices: g.f.Choices, Outcome: g.f.Kind + ":" + g.f.Label}
 		for _, v := range g.f.Vars {
 			rc.Vals = append(rc.Vals, g.f.Model[v])
@@ -421,19 +436,19 @@ func report(r *Runner, prop, tier, evidence, known string, noReplay bool, loadT,
 			"rule":                          "states = feasible symbolic paths executed to completion (each covers every value of its symbolic variables satisfying the path condition); transitions = solver-decided branch/case-split decisions; evaluations = SMT queries discharged; distinct_nontrivial = completed paths with a non-empty path condition; traces_validated = path models re-run natively (go test -overlay) with identical outcome and observations",
 			"exhaustive":                    len(inconclusive) == 0,
 			"paths_started":                 paths,
-			"solver":                        map[string]interface{}{"name": w.solverKind, "sat": sat, "unsat": unsat, "unknown": unknown, "time_s": solveT.Seconds(), "per_query_timeout_ms": w.timeoutMs,
+			"solver": map[string]interface{}{"name": w.solverKind, "sat": sat, "unsat": unsat, "unknown": unknown, "time_s": solveT.Seconds(), "per_query_timeout_ms": w.timeoutMs,
 				"fallback_one_shot": map[string]interface{}{"solvers": "cvc5 1.0, z3 5.1.0", "queries_tried": fbTried, "decided": fbDecided, "time_s": fbTime.Seconds(), "timeout_ms": w.fallbackMs}},
-			"ssa_instructions_executed":     instrs,
-			"functions_encoded_repo":        repoFuncs,
-			"functions_encoded_lib_count":   len(libFuncs),
-			"functions_encoded_lib":         libFuncs,
-			"natives_and_stubs_exercised":   nat,
-			"harnesses":                     perH,
-			"bounds":                        boundsFor(r),
-			"translator_mismatches":         mismatches,
-			"inconclusive":                  inconclusive,
-			"known_findings_reproduced":     knownLines,
-			"load_and_ssa_build_s":          loadT.Seconds(),
+			"ssa_instructions_executed":   instrs,
+			"functions_encoded_repo":      repoFuncs,
+			"functions_encoded_lib_count": len(libFuncs),
+			"functions_encoded_lib":       libFuncs,
+			"natives_and_stubs_exercised": nat,
+			"harnesses":                   perH,
+			"bounds":                      boundsFor(r),
+			"translator_mismatches":       mismatches,
+			"inconclusive":                inconclusive,
+			"known_findings_reproduced":   knownLines,
+			"load_and_ssa_build_s":        loadT.Seconds(),
 		},
 	}
 	if evidence != "" {
